@@ -230,4 +230,22 @@ theorem parseFirst_keyDoc (ks vs : List Sp) (hk : ks.all Sp.ok = true) (hv : vs.
       some (.obj [(String.ofList (ks.map Sp.char), .str (String.ofList (vs.map Sp.char)))]) := by
   simp [parseFirst, parsePrefix_keyDoc ks vs hk hv]
 
+/-! ### a walker that stores only into containers it allocated writes no cell of its input -/
+
+mutual
+theorem wWrites_cow : (j : Json) → wWrites ⟨false, false, false⟩ j = 0
+  | .null => by simp [wWrites]
+  | .bool _ => by simp [wWrites]
+  | .num _ => by simp [wWrites]
+  | .str _ => by simp [wWrites]
+  | .arr xs => by simp [wWrites, wWritesL_cow xs]
+  | .obj kvs => by simp [wWrites, wWritesO_cow kvs]
+theorem wWritesL_cow : (xs : List Json) → wWritesL ⟨false, false, false⟩ xs = 0
+  | [] => by simp [wWritesL]
+  | x :: r => by simp [wWritesL, wWrites_cow x, wWritesL_cow r]
+theorem wWritesO_cow : (kvs : List (String × Json)) → wWritesO ⟨false, false, false⟩ kvs = 0
+  | [] => by simp [wWritesO]
+  | (k, v) :: r => by simp [wWritesO, wWrites_cow v, wWritesO_cow r]
+end
+
 end MosnVerif.Model.RawJson
